@@ -124,7 +124,7 @@ def rule_reserved(facts):
         oks = flow.ok_blocks(b)
         for (bb, t, z, nz) in gs:
             # pattern A: Ne(BitAnd(<read_u8>, M), 0) with M covering 0x3C
-            if t[0] in ("Ne", "Eq") and len(t) == 3:
+            if t[0] in ("Ne", "Eq") and len(t) >= 3:
                 x, y = strip(t[1]), strip(t[2])
                 if y == ("const", 0) and x and x[0] == "BitAnd":
                     a1, a2 = strip(x[1]), strip(x[2])
@@ -151,7 +151,7 @@ def rule_reserved(facts):
                             r.bad("%s|reserved-dom" % short(b.name),
                                   "some successful return is not guarded by the reserved-bits test", where)
             # pattern B: first byte of to_be_bytes(arg u16) compared with 0
-            if t[0] in ("Ne", "Eq") and len(t) == 3 and strip(t[2]) == ("const", 0):
+            if t[0] in ("Ne", "Eq") and len(t) >= 3 and strip(t[2]) == ("const", 0):
                 x = strip(t[1])
                 if x and x[0] == "index" and x[2] in (0, ("const", 0)) and flow.term_has(x, lambda q: q[0] == "call" and "to_be_bytes" in q[1]):
                     found_stream = True
